@@ -142,7 +142,19 @@ class ConfigManager(object):
 
         raise ValueError("unrecognized serialize_type=%d" % serialize_type)
 
-    def save(self, profile_name, config, serialize_type=TYPE_JSON, dest=None):
+    def _profile_config_type(self, profile_name):
+        # the format of the config file load() would pick for this profile, None if the profile has none yet
+        config_dir = StorageTools.getStorageForProfile(profile_name)
+        for ext, config_type in self.MAP_EXT.items():
+            if os.path.isfile(os.path.join(config_dir, "%s.%s" % (self.NAME_FILE_CONFIG, ext))):
+                return config_type
+        return None
+
+    def save(self, profile_name, config, serialize_type=None, dest=None):
+        if serialize_type is None:
+            # keep the format the profile already uses: load() prefers config.yo, so a profile kept in key=value
+            # format would otherwise go on loading its old file after a save to config.json
+            serialize_type = (self._profile_config_type(profile_name) if dest is None else None) or self.TYPE_JSON
         outputdata = self.config_to_str(config, serialize_type)
         if dest is None:
             # name the profile's file after its format, as load() expects (config.json / config.yo)
